@@ -105,6 +105,7 @@ def decShiftAct : List String → Option ShiftAct
 
 def parseECmd : List String → Option ECmd
   | ["kwc"] => some .killWordC
+  | ["dc"] => some .deleteChar
   | ["regt", a, b, k, ty] => do pure (.regionTy (← decNat a) (← decNat b) (← decBool k) (← decTy ty))
   | "shift" :: a :: k :: act => do pure (.shiftSel (← decNat a) (← decInt k) (← decShiftAct act))
   | toks => (parseCmd toks).map .base
